@@ -1,13 +1,15 @@
 /-
   `binary_index` of src/distribution/categorical.rs (the search behind `Categorical::inverse_cdf`)
-  over ℝ: on a STRICTLY increasing table it returns the first index whose entry is `≥ val`
-  (`List.findIdx`), i.e. the generalised inverse of the cumulative table.
+  over ℝ: on every NON-DECREASING table (repeated entries allowed) it returns the FIRST index whose
+  entry is `≥ val` (`List.findIdx`), i.e. the generalised inverse of the cumulative table.  (The
+  loop is a lower-bound search: on `val ≤ el` — equality included — it moves `high` below `mid`.)
 
   The loop halves the window `[low, high]`, so `loopFuel = 20000` iterations are enough for every
   table of length `≤ isize::MAX` (`window < 2^fuel`).
 -/
 import Statrs.Real.Simp
 import Statrs.Gen.D_categorical
+import Statrs.Model.CategoricalModel
 import Mathlib.Tactic
 namespace Statrs.Lemmas.CategoricalSearch
 open Statrs Statrs.Gen
@@ -70,15 +72,15 @@ private theorem findIdx_eq_of_split (c : List ℝ) (val : ℝ) (r : ℕ) (hr : r
     have := hlo i (by omega) hi
     simpa using this
 
-theorem loop_spec (c : List ℝ) (val : ℝ) (hs : c.Pairwise (· < ·))
+theorem loop_spec (c : List ℝ) (val : ℝ) (hs : c.Pairwise (· ≤ ·))
     (hn : (c.length : ℤ) ≤ i64Max) :
     ∀ (f : ℕ) (low high : ℤ), 0 ≤ low → low ≤ high + 1 → high + 1 ≤ (c.length : ℤ) →
       high - low + 1 < 2 ^ f →
       (∀ i : ℕ, (i : ℤ) < low → ∀ h : i < c.length, c[i] < val) →
-      (∀ i : ℕ, high < (i : ℤ) → ∀ h : i < c.length, val < c[i]) →
+      (∀ i : ℕ, high < (i : ℤ) → ∀ h : i < c.length, val ≤ c[i]) →
       finish c (D.categorical.binary_index.loop1 (f + 1) c val high low)
         = ((c.findIdx (fun x => decide (val ≤ x)) : ℕ) : ℤ) := by
-  have hmono : ∀ (i j : ℕ) (hi : i < c.length) (hj : j < c.length), i < j → c[i] < c[j] :=
+  have hmono : ∀ (i j : ℕ) (hi : i < c.length) (hj : j < c.length), i < j → c[i] ≤ c[j] :=
     fun i j hi hj hij => List.pairwise_iff_getElem.mp hs i j hi hj hij
   have hmax : i64Max = 9223372036854775807 := rfl
   intro f
@@ -96,7 +98,7 @@ theorem loop_spec (c : List ℝ) (val : ℝ) (hs : c.Pairwise (· < ·))
     symm
     apply findIdx_eq_of_split c val r (by omega)
     · intro i hi h; exact hlo i (by omega) h
-    · intro h; exact (hhi r (by omega) h).le
+    · intro h; exact hhi r (by omega) h
   | succ k ih =>
     intro low high h0 h1 h2 hsz hlo hhi
     have hp : (2 : ℤ) ^ (k + 1) = 2 * 2 ^ k := by rw [pow_succ]; ring
@@ -117,34 +119,24 @@ theorem loop_spec (c : List ℝ) (val : ℝ) (hs : c.Pairwise (· < ·))
         rw [hw]; unfold listGet?
         rw [if_neg (by omega), Int.toNat_natCast, List.getElem?_eq_getElem hmn]; rfl
       simp only [hel]
-      by_cases c1 : val < c[m]
+      by_cases c1 : val ≤ c[m]
       · rw [if_pos c1]
         apply ih low ((m : ℤ) - 1) h0 (by omega) (by omega) (by omega) hlo
         intro i hi h
         rcases Nat.lt_or_ge m i with hmi | hmi
-        · exact lt_trans c1 (hmono m i hmn h hmi)
+        · exact le_trans c1 (hmono m i hmn h hmi)
         · have : i = m := by omega
           subst this; exact c1
       · rw [if_neg c1]
-        by_cases c2 : c[m] < val
-        · rw [if_pos c2]
-          have hmin : Min.min ((m : ℤ) + 1) i64Max = (m : ℤ) + 1 := min_eq_left (by omega)
-          rw [hmin]
-          apply ih ((m : ℤ) + 1) high (by omega) (by omega) h2 (by omega) _ hhi
-          intro i hi h
-          rcases Nat.lt_or_ge i m with him | him
-          · exact lt_trans (hmono i m h hmn him) c2
-          · have : i = m := by omega
-            subst this; exact c2
-        · rw [if_neg c2]
-          show wrapU64 (m : ℤ) = _
-          rw [hw]
-          congr 1
-          symm
-          have heq : c[m] = val := le_antisymm (not_lt.mp c1) (not_lt.mp c2)
-          apply findIdx_eq_of_split c val m (by omega)
-          · intro i hi h; rw [← heq]; exact hmono i m h hmn hi
-          · intro h; exact heq.ge
+        have c2 : c[m] < val := not_le.mp c1
+        have hmin : Min.min ((m : ℤ) + 1) i64Max = (m : ℤ) + 1 := min_eq_left (by omega)
+        rw [hmin]
+        apply ih ((m : ℤ) + 1) high (by omega) (by omega) h2 (by omega) _ hhi
+        intro i hi h
+        rcases Nat.lt_or_ge i m with him | him
+        · exact lt_of_le_of_lt (hmono i m h hmn him) c2
+        · have : i = m := by omega
+          subst this; exact c2
     · rw [if_neg hlh]
       show Min.min (listLen c) (wrapU64 (Max.max low 0)) = _
       have hw : wrapU64 (Max.max low 0) = low := by
@@ -155,11 +147,12 @@ theorem loop_spec (c : List ℝ) (val : ℝ) (hs : c.Pairwise (· < ·))
       symm
       apply findIdx_eq_of_split c val r (by omega)
       · intro i hi h; exact hlo i (by omega) h
-      · intro h; exact (hhi r (by omega) h).le
+      · intro h; exact hhi r (by omega) h
 
-/-- `binary_index` on a strictly increasing table of length `≤ isize::MAX`: the first index whose
-    entry is `≥ val` (the table length if there is none) -/
-theorem binary_index_spec (c : List ℝ) (val : ℝ) (hs : c.Pairwise (· < ·))
+/-- `binary_index` on a NON-DECREASING table (repeated entries allowed) of length `≤ isize::MAX`:
+    the FIRST index whose entry is `≥ val` (the table length if there is none) — a lower-bound
+    search; on a run of equal entries it returns the start of the run. -/
+theorem binary_index_spec (c : List ℝ) (val : ℝ) (hs : c.Pairwise (· ≤ ·))
     (hn : (c.length : ℤ) ≤ i64Max) :
     D.categorical.binary_index c val = ((c.findIdx (fun x => decide (val ≤ x)) : ℕ) : ℤ) := by
   rw [binary_index_eq_finish]
@@ -172,5 +165,106 @@ theorem binary_index_spec (c : List ℝ) (val : ℝ) (hs : c.Pairwise (· < ·))
     omega
   · intro i hi h; omega
   · intro i hi h; omega
+
+/-- the strictly increasing case (the statement before the lower-bound fix) is an instance -/
+theorem binary_index_spec_strict (c : List ℝ) (val : ℝ) (hs : c.Pairwise (· < ·))
+    (hn : (c.length : ℤ) ≤ i64Max) :
+    D.categorical.binary_index c val = ((c.findIdx (fun x => decide (val ≤ x)) : ℕ) : ℤ) :=
+  binary_index_spec c val (hs.imp le_of_lt) hn
+
+/-! ### the table built by `Categorical::new` (hand transcription `Model.Categorical.new`,
+    `Model.prob_mass_to_cdf`) from non-negative masses is non-decreasing -/
+
+/-- the fold inside `prob_mass_to_cdf` over ℝ, started at running sum `s` with pushes `acc`:
+    non-negative masses keep the pushes non-decreasing and below the running sum -/
+theorem cdfFold_mono (q : List ℝ) (s : ℝ) (acc : List ℝ) (hq : ∀ x ∈ q, 0 ≤ x)
+    (hacc : acc.Pairwise (· ≤ ·)) (hle : ∀ x ∈ acc, x ≤ s) :
+    let st := q.foldl (fun (st : ℝ × List ℝ) p => let sum := st.1 + p; (sum, st.2 ++ [sum])) (s, acc)
+    st.2.Pairwise (· ≤ ·) ∧ (∀ x ∈ st.2, x ≤ st.1) ∧ st.1 = s + q.sum ∧
+      st.2.length = acc.length + q.length ∧
+      ((q ≠ [] ∨ acc.getLast? = some s) → st.2.getLast? = some st.1) := by
+  induction q generalizing s acc with
+  | nil => simp [hacc]; exact hle
+  | cons a t ih =>
+    have ha : 0 ≤ a := hq a (by simp)
+    have h := ih (s + a) (acc ++ [s + a]) (fun x hx => hq x (by simp [hx]))
+      (by
+        rw [List.pairwise_append]
+        refine ⟨hacc, by simp, ?_⟩
+        intro x hx y hy
+        simp at hy; subst hy
+        have := hle x hx; linarith)
+      (by
+        intro x hx
+        simp at hx
+        rcases hx with hx | hx
+        · have := hle x hx; linarith
+        · subst hx; exact le_refl _)
+    simp only [List.foldl_cons]
+    obtain ⟨h1, h2, h3, h4, h5⟩ := h
+    refine ⟨h1, h2, by rw [h3]; simp; ring, by rw [h4]; simp; ring, fun _ => h5 (Or.inr (by simp))⟩
+
+/-- `prob_mass_to_cdf` of non-negative masses over ℝ: a NON-DECREASING table with one entry per
+    mass whose last entry is the sum of the masses (zero masses give repeated entries) -/
+theorem prob_mass_to_cdf_mono (p : List ℝ) (hp : ∀ x ∈ p, 0 ≤ x) :
+    (Model.prob_mass_to_cdf (α := ℝ) p).Pairwise (· ≤ ·)
+      ∧ (Model.prob_mass_to_cdf (α := ℝ) p).length = p.length
+      ∧ (p ≠ [] → (Model.prob_mass_to_cdf (α := ℝ) p).getLast? = some p.sum) := by
+  obtain ⟨h1, _, h3, h4, h5⟩ := cdfFold_mono p (0.0 : ℝ) [] hp (by simp) (by simp)
+  unfold Model.prob_mass_to_cdf
+  refine ⟨h1, by simpa using h4, fun hne => ?_⟩
+  rw [h5 (Or.inl hne), h3]; norm_num
+
+/-- the validation loop of `Categorical::new` over ℝ accepts exactly the non-negative vectors and
+    returns the start value plus their sum -/
+theorem newLoop_real (p : List ℝ) (s r : ℝ) (h : Model.Multinomial.newLoop p s = some r) :
+    (∀ x ∈ p, 0 ≤ x) ∧ r = s + p.sum := by
+  induction p generalizing s with
+  | nil => simp [Model.Multinomial.newLoop] at h; simp [h]
+  | cons a t ih =>
+    rw [Model.Multinomial.newLoop] at h
+    by_cases hbad : (RFun.isNaN a = true) ∨ a < (0.0 : ℝ)
+    · rw [if_pos hbad] at h; cases h
+    rw [if_neg hbad] at h
+    have ha : 0 ≤ a := by
+      by_contra hneg
+      exact hbad (Or.inr (by rw [show (0.0 : ℝ) = 0 by norm_num]; exact not_le.mp hneg))
+    obtain ⟨h1, h2⟩ := ih (s + a) h
+    refine ⟨?_, by rw [h2]; simp; ring⟩
+    intro x hx
+    simp at hx
+    rcases hx with rfl | hx
+    · exact ha
+    · exact h1 x hx
+
+/-- every `Categorical` that `Categorical::new` returns `Ok` over ℝ: the masses were non-negative
+    with positive sum, and `f_cdf` is a non-empty NON-DECREASING table with positive last entry —
+    the hypotheses of `binary_index_spec` / the quantile theorems hold for constructed objects -/
+theorem categorical_new_table (p : List ℝ) (d : Categorical ℝ)
+    (h : Model.Categorical.new p = .ok d) :
+    (∀ x ∈ p, 0 ≤ x) ∧ 0 < p.sum ∧ d.f_cdf = Model.prob_mass_to_cdf (α := ℝ) p ∧
+      d.f_cdf ≠ [] ∧ d.f_cdf.length = p.length ∧ d.f_cdf.Pairwise (· ≤ ·) ∧
+      d.f_cdf.getLast? = some p.sum := by
+  unfold Model.Categorical.new at h
+  split_ifs at h with hemp
+  have hne : p ≠ [] := by simpa using hemp
+  split at h
+  · cases h
+  · rename_i prob_sum hloop
+    obtain ⟨hnn, hsum⟩ := newLoop_real p _ _ hloop
+    split_ifs at h with hz
+    have hcdf : d.f_cdf = Model.prob_mass_to_cdf (α := ℝ) p := by
+      injection h with h; rw [← h]
+    obtain ⟨hm, hl, hlast⟩ := prob_mass_to_cdf_mono p hnn
+    have hs0 : 0 ≤ p.sum := List.sum_nonneg hnn
+    have hpos : 0 < p.sum := by
+      rcases hs0.lt_or_eq with h | h
+      · exact h
+      · exfalso; apply hz; rw [hsum, ← h]; simp
+    refine ⟨hnn, hpos, hcdf, ?_, by rw [hcdf, hl], by rw [hcdf]; exact hm, by rw [hcdf]; exact hlast hne⟩
+    intro he
+    have : d.f_cdf.length = p.length := by rw [hcdf, hl]
+    rw [he] at this
+    exact hne (List.length_eq_zero_iff.mp this.symm)
 
 end Statrs.Lemmas.CategoricalSearch
